@@ -535,7 +535,8 @@ type c09Run struct {
 	ID               []byte      // prepared id the client got
 	Win              []mon.Event // USE tuples: the backend-side window of the run
 	Incomplete       string
-	Done             bool // every request of the run was answered
+	Done             bool   // every request of the run was answered
+	Deco             string // header decorations of the run's frames
 }
 
 const c09Wait = 10 * time.Second
@@ -579,8 +580,25 @@ func c09Drive(cl *rawcql.Client, stream *int16, run *c09Run) {
 		run.QText = t.text(run.TokQ, true, false)
 		run.PText = t.text(run.TokP, true, true)
 	}
+	// header decorations say nothing about what a statement is: every fourth run carries a DSE graph payload, every fourth the
+	// tracing flag, every fourth another custom payload plus tracing
+	deco := int(hashString(run.QText) % 4)
+	mk := func(msg message.Message) *frame.Frame {
+		f := frame.NewFrame(primitive.ProtocolVersion4, next(), msg)
+		switch deco {
+		case 1:
+			f.SetCustomPayload(map[string][]byte{"graph-source": []byte("g"), "graph-language": []byte("gremlin-groovy")})
+		case 2:
+			f.RequestTracingId(true)
+		case 3:
+			f.SetCustomPayload(map[string][]byte{"x-request-id": []byte("0123456789")})
+			f.RequestTracingId(true)
+		}
+		return f
+	}
+	run.Deco = []string{"-", "graph-payload", "tracing", "payload+tracing"}[deco]
 	prepare := func() bool {
-		f, err := cl.Call(next(), &message.Prepare{Query: run.PText}, c09Wait)
+		f, err := cl.CallF(mk(&message.Prepare{Query: run.PText}), c09Wait)
 		if err != nil {
 			run.Incomplete = "PREPARE: " + err.Error()
 			return false
@@ -593,7 +611,7 @@ func c09Drive(cl *rawcql.Client, stream *int16, run *c09Run) {
 		return true
 	}
 	query := func() bool {
-		f, err := cl.Call(next(), &message.Query{Query: run.QText, Options: opts()}, c09Wait)
+		f, err := cl.CallF(mk(&message.Query{Query: run.QText, Options: opts()}), c09Wait)
 		if err != nil {
 			run.Incomplete = "QUERY: " + err.Error()
 			return false
@@ -615,7 +633,7 @@ func c09Drive(cl *rawcql.Client, stream *int16, run *c09Run) {
 		return
 	}
 	val := []byte(run.TokE)
-	f, err := cl.Call(next(), &message.Execute{QueryId: run.ID, Options: opts(primitive.NewValue(val))}, c09Wait)
+	f, err := cl.CallF(mk(&message.Execute{QueryId: run.ID, Options: opts(primitive.NewValue(val))}), c09Wait)
 	if err != nil {
 		run.Incomplete = "EXECUTE: " + err.Error()
 		return
@@ -922,6 +940,9 @@ func c09E2E(c *Ctx, tuples []c09Tuple) {
 				sig = fmt.Sprintf("C09/e2e-routing-mismatch/curks=%s/qual=%s/table=%s/expected=%v/via=%s", c09Curks[t.C].Sem, c09Quals[t.Q].Sem, c09Tables[t.T].Sem, exp, viaS)
 			}
 		}
+		if run.Deco != "" && run.Deco != "-" { // only the decorated runs deviate, or they deviate too: the signature says which frames
+			sig += "/frames=" + run.Deco
+		}
 		r.Obs("e2e:mismatching-tuples", 1)
 		if reported[sig] {
 			r.Obs("violation:"+sig, 1)
@@ -933,7 +954,7 @@ func c09E2E(c *Ctx, tuples []c09Tuple) {
 			want = "answered by the proxy itself"
 		}
 		r.Violate(mon.Violation{Signature: sig,
-			Detail: fmt.Sprintf("current keyspace %q: QUERY %q %s (reply %s); PREPARE %q %s (reply %s); EXECUTE %s (reply %s); by CQL identifier rules the statement must be %s",
+			Detail: fmt.Sprintf("frames carry %s; ", map[bool]string{true: "no header decorations", false: run.Deco}[run.Deco == "-" || run.Deco == ""]) + fmt.Sprintf("current keyspace %q: QUERY %q %s (reply %s); PREPARE %q %s (reply %s); EXECUTE %s (reply %s); by CQL identifier rules the statement must be %s",
 				c09Curks[t.C].Text, run.QText, fw(qf), run.QReply, run.PText, fw(pf), run.PReply, map[bool]string{true: fw(ef), false: "not sent (no prepared id)"}[run.ID != nil], run.EReply, want),
 			Scenario: t.scenario("e2e"),
 			Witness: map[string]interface{}{"tuple": t.describe(), "minimal_tuple": m.describe(), "tokens": []string{run.TokQ, run.TokP, run.TokE}, "prepared_id": hex.EncodeToString(run.ID),
